@@ -163,12 +163,12 @@ def _ev_tuples(run):
     return run
 
 
-def fill_recipe(recipe, S, msgmode, validate, pbf):
+def fill_recipe(recipe, S, msgmode, validate, pbf, labelmsm=1):
     out = []
     for x in recipe:
         x = dict(x)
         if x["p"] != "NOISE":
-            ok, dd, fam = rd.direct_parse(S[x["a"]:x["b"]], msgmode, validate, pbf)
+            ok, dd, fam = rd.direct_parse(S[x["a"]:x["b"]], msgmode, validate, pbf, labelmsm)
             x["ok"], x["dd"], x["fam"] = (1 if ok else 0), dd, fam
         out.append(x)
     return out
@@ -179,6 +179,7 @@ def obs_runs(case):
               msgmode, validate, pbf, conf}"""
     S = bytes.fromhex(case["S"])
     mm, va, pbf = case.get("msgmode", 0), case.get("validate", 1), case.get("pbf", 1)
+    lm = case.get("labelmsm", 1)
     it = rd.Interner()
     runs = []
     raw_runs = []
@@ -187,7 +188,7 @@ def obs_runs(case):
         data = S if cut < 0 else S[:cut]
         r = rd.run_reader(data, filt=pl.get("filter", 7), quit=pl.get("quit", 1), parsing=bool(pl.get("parsing", 1)),
                           handler=bool(pl.get("handler", 1)), msgmode=mm, validate=va, pbf=pbf,
-                          keep_reads=bool(pl.get("reads", 0)))
+                          keep_reads=bool(pl.get("reads", 0)), labelmsm=lm)
         r["cut"] = cut
         r["reads"] = 1 if pl.get("reads", 0) else 0
         raw_runs.append(r)
@@ -198,7 +199,7 @@ def obs_runs(case):
             same = 1 if rd.same_exception(lg["_errs"][0], rs["_raised"]) else 0
     for r in raw_runs:
         runs.append(_ev_tuples(rd.finish_run(r, it)))
-    recipe = fill_recipe(case.get("recipe", []), S, mm, va, pbf)
+    recipe = fill_recipe(case.get("recipe", []), S, mm, va, pbf, lm)
     allok = 1 if recipe and all(x["p"] == "NOISE" or x["ok"] == 1 for x in recipe) else 0
     return {"prop": case["prop"], "S": list(S), "raws": it.table, "recipe": recipe, "runs": runs, "allok": allok,
             "same_exc": same, "conf": case.get("conf", 0)}
